@@ -718,6 +718,9 @@ class ITerm2Image(GraphicsImage, metaclass=ITerm2ImageMeta):
                     format,
                     compress_level=compress,  # PNG
                     quality=jpeg_quality,
+                    # Transparency has been taken care of (applied to the alpha
+                    # channel or discarded); the image mustn't be colour-keyed also.
+                    transparency=None,
                 )
 
         # clean up (ImageIterator uses one PIL image throughout)
